@@ -8,6 +8,15 @@ properties; reference \\uN decoding), IfaceGen.tla (bounded universes + laws), I
    TLC enumerated is concretised (mbv/c04_lib.py): the generated rich document of the format is rendered with
    those document properties, the file is created / not created in a scratch directory as the abstract path
    says, the real extractor is called with the concretised path argument.
+2b. Further TLC-enumerated input families (IfaceGen modes heads / opfs / alts), built in mbv/c04_lib.py by an own
+   head renderer or by post-processing the shared writers' packages: every layout of an HTML / MHTML head
+   (optional <html>/<head>/<body> tags omitted or not, <title> before / after the <meta> elements, letter case of
+   tags and metadata names, attribute order) and of an EPUB package document (prefixed / default namespace,
+   title first / last, dc elements with attributes, version 2 / 3) x 3 property values -- the document-property
+   clause must hold for each; and the pictures' alternative texts (name x title x description, each absent /
+   empty / blank / text) in ODT / ODS / ODP / ODG (svg:title, svg:desc, draw:name) and DOCX / PPTX / XLSX
+   (name / title / descr attributes) -- every text accessor of every image must return str, through
+   iterate_images() and through the units.
 3. code -> spec: a recorder calls the WHOLE accessor protocol on every result and every unit, image and table
    reachable from it and logs one event per call with the projected return (or the exception); the same is done
    for every repository fixture, for seeded mutants (truncation, byte flips, zeroed / 0xFF ranges, applied to
